@@ -341,6 +341,23 @@ def other_cases(ctx, rng, scale, add, dist, failures):
         qtol_s = Fraction(1, 10 ** 4) if cmin > 0.5 else Fraction(min(0.05, max(1e-4, 2e-5 / max(cmin, 1e-3) ** 2))).limit_denominator(10 ** 6)
         add(term(False, TOL_NAT, cb, xs, idx.reshape(-1).tolist(), qs, qtol_s), dict(kind='simvq', mlp=mlp, channel_first=cf), len(set(idx.reshape(-1).tolist())) >= 2)
         dist['simvq'] += 1
+        # frozen-module history on a second instance (vlib/callzoo.frozen_surgery): frozen, another checkpoint loaded while frozen, parameters written in
+        # place, unfrozen again - at every stage the forward selects the nearest entry of the codebook the module has NOW (recomputed here from
+        # code_transform(frozen_codebook), not read through a property that could be memoised)
+        if ci % 2 == 0:
+            from vlib import callzoo
+            mk_q = lambda: SimVQ(dim=d, codebook_size=K, codebook_transform=(nn.Sequential(nn.Linear(fd, 5), nn.ReLU(), nn.Linear(5, d)) if mlp else None), frozen_codebook_dim=fd, channel_first=cf,
+                                 rotation_trick=False)
+            q2 = mk_q()
+            for stage in callzoo.frozen_surgery(torch, q2, mk_q):
+                x2 = torch.randn(2, d, 4) if cf else torch.randn(2, 4, d)
+                with torch.no_grad():
+                    out2, idx2, _ = q2(x2)
+                    cb2 = q2.code_transform(q2.frozen_codebook).double().tolist()
+                xs2 = (x2.movedim(1, -1) if cf else x2).reshape(-1, d).double().tolist()
+                qs2 = (out2.movedim(1, -1) if cf else out2).reshape(-1, d).double().tolist()
+                add(term(False, TOL_NAT, cb2, xs2, idx2.reshape(-1).tolist(), qs2, Fraction(1, 10 ** 4)), dict(kind='simvq-frozen-history', stage=stage, mlp=mlp, channel_first=cf), True)
+                dist['simvq_frozen_history_calls'] = dist.get('simvq_frozen_history_calls', 0) + 1
         # ResidualSimVQ: each layer against the residual it received
         rq = ResidualSimVQ(dim=d, num_quantizers=2, codebook_size=K)
         rq.eval()
